@@ -354,3 +354,281 @@ Proof. vm_compute. discriminate. Qed.
 Example seeded_rejects_other_valid_run :
   seeded_ok (run_C06s ex_in_shuffle) (L [L [L [I 4; I 3; I 0]; L [I 6; I 7]; L [I 1; I 5]; L [I 2]]; I 1; ex_obs_shuffle]) = false.
 Proof. vm_compute. reflexivity. Qed.
+
+(** ** machine integers inside the model (third session, topic K; C06_Machine.v)
+
+    [mbatches_o sizeN p fixed sort shuffle prefetch limit ty o input] /
+    [mbatches_seeded sizeN p fixed .. seed input]: the machine-integer model of
+    [Batched::new(..)] drained, at the oracle level and with the generator inside.  [usize] is a
+    64-bit integer; every [+], [-], [*] of src/data/loading.rs ([BatchLimit], [build_batch],
+    [batch_from]) and of src/utils.rs [find_subsequences_of_max_size_k] is a numbered operation
+    that panics ([MFault site]) in profile [Checked] (overflow checks on: debug builds) and wraps
+    modulo 2^64 in profile [Wrapping] (release builds) when its result is no [usize];
+    [fixed = true] is the repaired code ([saturating_mul] in [BatchLimit::limit] and for the
+    buffer bound [batch_limit * prefetch_factor]), [fixed = false] the pinned code.  Sizes are
+    [sizeN : A -> N]; the unbounded model is taken at the size function
+    [fun a => N.to_nat (sizeN a)].  [W] = 2^64, [UMAX] = 2^64 - 1. *)
+From TU Require Import C06_Machine C06_MachineProofs C06_MachineTop.
+Local Open Scope nat_scope.
+
+(** the three operations on [usize] operands, in both profiles *)
+Theorem machine_ops_spec : forall s a b, (a < W)%N -> (b < W)%N ->
+  madd Checked s a b = (if (a + b <? W)%N then MOk (a + b)%N else MFault s) /\
+  madd Wrapping s a b = MOk ((a + b) mod W)%N /\
+  msub Checked s a b = (if (b <=? a)%N then MOk (a - b)%N else MFault s) /\
+  msub Wrapping s a b = MOk ((a + W - b) mod W)%N /\
+  mmul Checked s a b = (if (a * b <? W)%N then MOk (a * b)%N else MFault s) /\
+  mmul Wrapping s a b = MOk ((a * b) mod W)%N.
+Proof. exact machine_ops_spec_l. Qed.
+Print Assumptions machine_ops_spec.
+
+(** THE simulation: for every item type, size function (no bound on the sizes), input of a length
+    a [Vec] can have, every limit below 2^64, every prefetch factor, both profiles: the repaired
+    machine-level function IS the unbounded model under the effective limit / prefetch factor
+    ([eff_lim], [eff_pre]: the given ones unless saturation reaches a threshold; then a threshold
+    no value of [limit()] on the input exceeds) — for every oracle, errors included *)
+Theorem machine_eff : forall (A : Type) (sizeN : A -> N) p sort shuffle prefetch lim ty o (input : list A),
+  (lim < W)%N -> fits (length input) ->
+  mbatches_o sizeN p true sort shuffle prefetch lim ty o input
+  = lift (batches (fun a => N.to_nat (sizeN a)) sort shuffle (N.to_nat (eff_pre sizeN ty prefetch lim input))
+                  (N.to_nat (eff_lim sizeN ty lim input)) ty o input).
+Proof. exact @machine_eff_o_l. Qed.
+Print Assumptions machine_eff.
+
+Theorem machine_eff_seeded : forall (A : Type) (sizeN : A -> N) p sort shuffle prefetch lim ty seed (input : list A),
+  (lim < W)%N -> fits (length input) ->
+  mbatches_seeded sizeN p true sort shuffle prefetch lim ty seed input
+  = lift (batches_seeded (fun a => N.to_nat (sizeN a)) sort shuffle (N.to_nat (eff_pre sizeN ty prefetch lim input))
+                         (N.to_nat (eff_lim sizeN ty lim input)) ty seed input).
+Proof. exact @machine_eff_s_l. Qed.
+Print Assumptions machine_eff_seeded.
+
+(** hence, for ALL configuration values and item sizes: no arithmetic fault, no slice / splice /
+    index / pop / assertion panic, fuel never exhausted — in either profile; a bad result only
+    for an oracle out of range; with the generator inside: always a batch sequence *)
+Theorem machine_never_faults : forall (A : Type) (sizeN : A -> N) p sort shuffle prefetch lim ty o (input : list A),
+  (lim < W)%N -> fits (length input) ->
+  (exists bs, mbatches_o sizeN p true sort shuffle prefetch lim ty o input = MOk bs) \/
+  (mbatches_o sizeN p true sort shuffle prefetch lim ty o input = MErr BadOracle /\ ~ oracle_guard o).
+Proof. exact @machine_safe_o_l. Qed.
+Print Assumptions machine_never_faults.
+
+Theorem machine_total : forall (A : Type) (sizeN : A -> N) p sort shuffle prefetch lim ty o (input : list A),
+  (lim < W)%N -> fits (length input) -> oracle_guard o ->
+  exists bs, mbatches_o sizeN p true sort shuffle prefetch lim ty o input = MOk bs.
+Proof. exact @machine_total_o_l. Qed.
+Print Assumptions machine_total.
+
+Theorem machine_total_seeded : forall (A : Type) (sizeN : A -> N) p sort shuffle prefetch lim ty seed (input : list A),
+  (lim < W)%N -> fits (length input) ->
+  exists bs, mbatches_seeded sizeN p true sort shuffle prefetch lim ty seed input = MOk bs.
+Proof. exact @machine_total_s_l. Qed.
+Print Assumptions machine_total_seeded.
+
+(** the clauses of the property, of the machine-level function: partition and no empty batch for
+    every input; the limit clause with the product computed exactly ([limitN]: item count, or
+    count x largest size, in N) whenever the limit is exact ([lim_exact]: lim < usize::MAX, or no
+    value of [limit()] on the input exceeds usize::MAX) *)
+Theorem machine_props : forall (A : Type) (sizeN : A -> N) p sort shuffle prefetch lim ty o (input : list A) bs,
+  (lim < W)%N -> fits (length input) ->
+  mbatches_o sizeN p true sort shuffle prefetch lim ty o input = MOk bs ->
+  Permutation (concat bs) input /\ Forall (fun b => b <> []) bs /\
+  (lim_exact sizeN ty lim input -> Forall (fun b => 1 < length b -> (limitN sizeN ty b <= N.max lim 1)%N) bs).
+Proof. exact @machine_props_o_l. Qed.
+Print Assumptions machine_props.
+
+Theorem machine_props_seeded : forall (A : Type) (sizeN : A -> N) p sort shuffle prefetch lim ty seed (input : list A) bs,
+  (lim < W)%N -> fits (length input) ->
+  mbatches_seeded sizeN p true sort shuffle prefetch lim ty seed input = MOk bs ->
+  Permutation (concat bs) input /\ Forall (fun b => b <> []) bs /\
+  (lim_exact sizeN ty lim input -> Forall (fun b => 1 < length b -> (limitN sizeN ty b <= N.max lim 1)%N) bs).
+Proof. exact @machine_props_s_l. Qed.
+Print Assumptions machine_props_seeded.
+
+(** without sort and shuffle: input order, and greedy-maximal batches when the limit is exact *)
+Theorem machine_plain : forall (A : Type) (sizeN : A -> N) p prefetch lim ty o (input : list A) bs,
+  (lim < W)%N -> fits (length input) ->
+  mbatches_o sizeN p true false false prefetch lim ty o input = MOk bs ->
+  concat bs = input /\
+  (lim_exact sizeN ty lim input -> forall i b b' x, nth_error bs i = Some b -> nth_error bs (S i) = Some (x :: b') ->
+     (N.max lim 1 < limitN sizeN ty (b ++ [x]))%N).
+Proof. exact @machine_plain_o_l. Qed.
+Print Assumptions machine_plain.
+
+Theorem machine_plain_seeded : forall (A : Type) (sizeN : A -> N) p prefetch lim ty seed (input : list A) bs,
+  (lim < W)%N -> fits (length input) ->
+  mbatches_seeded sizeN p true false false prefetch lim ty seed input = MOk bs ->
+  concat bs = input /\
+  (lim_exact sizeN ty lim input -> forall i b b' x, nth_error bs i = Some b -> nth_error bs (S i) = Some (x :: b') ->
+     (N.max lim 1 < limitN sizeN ty (b ++ [x]))%N).
+Proof. exact @machine_plain_s_l. Qed.
+Print Assumptions machine_plain_seeded.
+
+(** equality with the unbounded model under the GIVEN configuration — so that every pinned
+    statement about [batches] / [batches_seeded] above is a statement about the machine-level
+    function — whenever no threshold is reached by saturation ([no_sat]: the clamped product
+    limit x prefetch is below usize::MAX, or no value of [limit()] on the input exceeds usize::MAX;
+    no other premise on the item sizes); for BatchSize that always holds *)
+Theorem machine_eq_model : forall (A : Type) (sizeN : A -> N) p sort shuffle prefetch lim ty o (input : list A),
+  (lim < W)%N -> fits (length input) -> no_sat sizeN ty prefetch lim input ->
+  mbatches_o sizeN p true sort shuffle prefetch lim ty o input
+  = lift (batches (fun a => N.to_nat (sizeN a)) sort shuffle (N.to_nat prefetch) (N.to_nat lim) ty o input).
+Proof. exact @machine_eq_model_o_l. Qed.
+Print Assumptions machine_eq_model.
+
+Theorem machine_eq_model_seeded : forall (A : Type) (sizeN : A -> N) p sort shuffle prefetch lim ty seed (input : list A),
+  (lim < W)%N -> fits (length input) -> no_sat sizeN ty prefetch lim input ->
+  mbatches_seeded sizeN p true sort shuffle prefetch lim ty seed input
+  = lift (batches_seeded (fun a => N.to_nat (sizeN a)) sort shuffle (N.to_nat prefetch) (N.to_nat lim) ty seed input).
+Proof. exact @machine_eq_model_s_l. Qed.
+Print Assumptions machine_eq_model_seeded.
+
+Theorem batch_size_never_saturates : forall (A : Type) (sizeN : A -> N) prefetch lim (input : list A),
+  fits (length input) -> no_sat sizeN BatchSize prefetch lim input.
+Proof. exact @no_sat_batch_size. Qed.
+Print Assumptions batch_size_never_saturates.
+
+(** the premise is needed, and what fails without it is the limit clause (known finding
+    LIMIT-MAX): padded limit usize::MAX, two items of 2^63 — one batch, 2 * 2^63 > usize::MAX *)
+Theorem machine_limit_max_refuted : forall p,
+  mbatches_o misize p true false false 1 UMAX Padded o_default (mk_mitems [p63; p63])
+  = MOk [[(0, p63); (1, p63)]] /\
+  (UMAX < limitN misize Padded [(0%nat, p63); (1%nat, p63)])%N /\
+  ~ no_sat misize Padded 1 UMAX (mk_mitems [p63; p63]).
+Proof. exact machine_limit_max_refuted_l. Qed.
+Print Assumptions machine_limit_max_refuted.
+
+Theorem machine_eq_model_refuted : forall p,
+  mbatches_o misize p true false false 1 UMAX Padded o_default (mk_mitems [p63; p63])
+  <> lift (batches (fun a => N.to_nat (misize a)) false false (N.to_nat 1) (N.to_nat UMAX) Padded o_default (mk_mitems [p63; p63])).
+Proof. exact machine_eq_model_refuted_l. Qed.
+Print Assumptions machine_eq_model_refuted.
+
+(** debug and release builds of the repaired code compute the same *)
+Theorem machine_profiles_agree : forall (A : Type) (sizeN : A -> N) sort shuffle prefetch lim ty (input : list A),
+  (lim < W)%N -> fits (length input) ->
+  (forall o, mbatches_o sizeN Checked true sort shuffle prefetch lim ty o input
+             = mbatches_o sizeN Wrapping true sort shuffle prefetch lim ty o input) /\
+  (forall seed, mbatches_seeded sizeN Checked true sort shuffle prefetch lim ty seed input
+                = mbatches_seeded sizeN Wrapping true sort shuffle prefetch lim ty seed input).
+Proof. exact @machine_profiles_agree_l. Qed.
+Print Assumptions machine_profiles_agree.
+
+(** the PINNED arithmetic (D15).  With overflow checks: every sorting or shuffling configuration
+    whose buffer bound limit x prefetch is no usize faults at site 4 in the first call of next(),
+    whatever the input — an empty one included *)
+Theorem pinned_bound_faults : forall (A : Type) (sizeN : A -> N) (St : Type) (D : draws A St) sort shuffle prefetch lim ty st0 (input : list A),
+  sort || shuffle = true -> (W <= N.max lim 1 * N.max prefetch 1)%N ->
+  mbatches sizeN Checked false D sort shuffle prefetch lim ty st0 input = MFault 4.
+Proof. exact @pinned_bound_faults_l. Qed.
+Print Assumptions pinned_bound_faults.
+
+(** padded limit 5, sizes 2^63, 1, 1, plain mode: [2 * 2^63] in [limit()] faults (site 3) where
+    the repaired code answers ... *)
+Theorem pinned_no_fault_refuted :
+  mbatches_o misize Checked false false false 1 5 Padded o_default (mk_mitems [p63; 1; 1]%N) = MFault 3 /\
+  mbatches_o misize Checked true false false 1 5 Padded o_default (mk_mitems [p63; 1; 1]%N)
+  = MOk [[(0, p63)]; [(1, 1%N); (2, 1%N)]].
+Proof. exact pinned_no_fault_refuted_l. Qed.
+Print Assumptions pinned_no_fault_refuted.
+
+(** ... and without overflow checks the product wraps to 0 <= 5: a batch of two items of padded
+    size 2^64 > 5 (what the release build of the pinned code returned) *)
+Theorem pinned_wrapping_limit_refuted :
+  mbatches_o misize Wrapping false false false 1 5 Padded o_default (mk_mitems [p63; 1; 1]%N)
+  = MOk [[(0, p63); (1, 1%N)]; [(2, 1%N)]] /\
+  (5 < limitN misize Padded [(0%nat, p63); (1%nat, 1)])%N.
+Proof. exact pinned_wrapping_limit_refuted_l. Qed.
+Print Assumptions pinned_wrapping_limit_refuted.
+
+(** limit 2^63, prefetch factor 2, sort: the wrapped bound 0 lets one item into the buffer per call *)
+Theorem pinned_wrapping_bound_refuted :
+  mbatches_o misize Wrapping false true false 2 p63 BatchSize o_default (mk_mitems [1; 2; 3]%N)
+  = MOk [[(0, 1%N)]; [(1, 2%N)]; [(2, 3%N)]] /\
+  mbatches_o misize Wrapping true true false 2 p63 BatchSize o_default (mk_mitems [1; 2; 3]%N)
+  = MOk [[(2, 3%N); (1, 2%N); (0, 1%N)]].
+Proof. exact pinned_wrapping_bound_refuted_l. Qed.
+Print Assumptions pinned_wrapping_bound_refuted.
+
+(** where neither product overflows ([no_ovf]: limit x prefetch and every value of [limit()] on the
+    input are usize) the pinned code is the repaired code: the repair changes nothing else *)
+Theorem pinned_agrees_elsewhere : forall (A : Type) (sizeN : A -> N) p sort shuffle prefetch lim ty (input : list A),
+  (lim < W)%N -> fits (length input) -> no_ovf sizeN ty prefetch lim input ->
+  (forall o, mbatches_o sizeN p false sort shuffle prefetch lim ty o input
+             = mbatches_o sizeN p true sort shuffle prefetch lim ty o input) /\
+  (forall seed, mbatches_seeded sizeN p false sort shuffle prefetch lim ty seed input
+                = mbatches_seeded sizeN p true sort shuffle prefetch lim ty seed input).
+Proof. exact @pinned_agrees_elsewhere_l. Qed.
+Print Assumptions pinned_agrees_elsewhere.
+
+(** val level: the run the correspondence compares with the implementation in both cargo profiles
+    is the unbounded seeded model under the effective parameters, the same in both profiles, and
+    always a batch sequence *)
+Theorem machine_run : forall p v, (v_big (v_nth 3 v) < W)%N -> fits (length (v_mitems v)) ->
+  run_machine p true v
+  = lift (batches_seeded (fun a => N.to_nat (misize a)) (v_bool (v_nth 0 v)) (v_bool (v_nth 1 v))
+            (N.to_nat (eff_pre misize (v_ty (v_nth 4 v)) (v_big (v_nth 2 v)) (v_big (v_nth 3 v)) (v_mitems v)))
+            (N.to_nat (eff_lim misize (v_ty (v_nth 4 v)) (v_big (v_nth 3 v)) (v_mitems v)))
+            (v_ty (v_nth 4 v)) (in_seed v) (v_mitems v)) /\
+  run_M06s Checked true v = run_M06s Wrapping true v /\
+  exists bs, run_machine p true v = MOk bs.
+Proof. exact machine_run_eq_l. Qed.
+Print Assumptions machine_run.
+
+(** the clause [machine_agree] of the correspondence holds of the machine model's own output *)
+Theorem machine_agree_run : forall p v, (v_big (v_nth 3 v) < W)%N -> fits (length (v_mitems v)) ->
+  machine_agree v (run_M06s p true v) = true.
+Proof. exact machine_agree_run_l. Qed.
+Print Assumptions machine_agree_run.
+
+(** the executable statement with all products in N: it holds of the machine model's own output
+    whenever the limit is exact, and a passing check means the clauses over machine integers *)
+Theorem check_machine_run : forall p v, (v_big (v_nth 3 v) < W)%N -> fits (length (v_mitems v)) ->
+  lim_exact misize (v_ty (v_nth 4 v)) (v_big (v_nth 3 v)) (v_mitems v) ->
+  check_M06 v (run_M06s p true v) = true.
+Proof. exact check_M06_run_l. Qed.
+Print Assumptions check_machine_run.
+
+Theorem check_machine_sound : forall v out, check_M06 v out = true ->
+  let items := v_mitems v in
+  let ty := v_ty (v_nth 4 v) in
+  let L := N.max (v_big (v_nth 3 v)) 1 in
+  let bs := map (map (mlookup items)) (v_batches (v_nth 0 out)) in
+  Permutation (concat bs) items /\
+  Forall (fun b => b <> []) bs /\
+  Forall (fun b => 1 < length b -> (limitN misize ty b <= L)%N) bs /\
+  (v_bool (v_nth 0 v) = false -> v_bool (v_nth 1 v) = false ->
+   concat bs = items /\
+   forall i b b' x, nth_error bs i = Some b -> nth_error bs (S i) = Some (x :: b') ->
+     (L < limitN misize ty (b ++ [x]))%N).
+Proof. exact check_M06_sound_l. Qed.
+Print Assumptions check_machine_sound.
+
+(** non-vacuity of the premises: the input of [pinned_no_fault_refuted] (an item of 2^63) with limit 5
+    and prefetch 1 satisfies [fits], [lim_exact] and [no_sat] but not [no_ovf]; a small input
+    satisfies [no_ovf]; a limit of 2^63 with prefetch factor 2 is a configuration of
+    [pinned_bound_faults]; [eff_lim] / [eff_pre] move only in the saturated corner *)
+Example machine_premises_example :
+  (5 < W)%N /\ fits (length (mk_mitems [p63; 1; 1]%N)) /\
+  lim_exact misize Padded 5 (mk_mitems [p63; 1; 1]%N) /\ no_sat misize Padded 1 5 (mk_mitems [p63; 1; 1]%N) /\
+  ~ no_ovf misize Padded 1 5 (mk_mitems [p63; 1; 1]%N) /\
+  no_ovf misize Padded 2 4 (mk_mitems [3; 1; 2]%N) /\
+  (true || false = true /\ (W <= N.max p63 1 * N.max 2 1)%N).
+Proof.
+  unfold fits, lim_exact, no_sat, no_ovf. vm_compute.
+  repeat split; try reflexivity; try (left; reflexivity); try discriminate.
+  intros [H _]. apply H. reflexivity.
+Qed.
+Example eff_parameters_example :
+  eff_lim misize Padded 5 (mk_mitems [p63; 1; 1]%N) = 5%N /\
+  eff_pre misize Padded 1 5 (mk_mitems [p63; 1; 1]%N) = 1%N /\
+  eff_lim misize Padded UMAX (mk_mitems [p63; p63]) = W /\
+  eff_pre misize BatchSize 2 p63 (mk_mitems [1; 2; 3]%N) = 2%N.
+Proof. vm_compute. repeat split; reflexivity. Qed.
+(** the shrunk replay of the check on the pinned tree (sort + shuffle, prefetch 2, padded limit 1, sizes
+    2 and 2^63 + 1, seed 0): fault at site 3 with overflow checks; the repaired code, from the seed *)
+Example replay_d15 :
+  mbatches_seeded misize Checked false true true 2 1 Padded 0 (mk_mitems [2; 9223372036854775809]%N) = MFault 3 /\
+  mbatches_seeded misize Checked true true true 2 1 Padded 0 (mk_mitems [2; 9223372036854775809]%N)
+  = MOk [[(1, 9223372036854775809%N)]; [(0, 2%N)]].
+Proof. split; vm_compute; reflexivity. Qed.
